@@ -407,7 +407,7 @@ def evaluate__cast_expressions(self: XPathToken, context: ta.ContextType = None)
                     raise self.error('XPTY0004', "Non literal string to QName cast")
 
             token = token_class(self.parser)
-            value = token.cast(arg)
+            value = token.cast(arg.value if isinstance(arg, UntypedAtomic) else arg)
 
     except ElementPathError:
         if self.symbol != 'cast':
